@@ -22,8 +22,14 @@ NA = -999999999
 TBASE = 1577836800
 FN2TEST = {"gross": "gross_range_test", "spike": "spike_test", "roc": "rate_of_change_test",
            "dens": "density_inversion_test", "flat": "flat_line_test", "probe": "verif_probe_test",
-           "boom": "verif_boom_test", "notest": "not_a_test", "nomod": "some_test"}
-TEST2FN = {v: k for k, v in FN2TEST.items()}
+           "boom": "verif_boom_test", "notest": "not_a_test", "nomod": "some_test",
+           "valid": "valid_range_test", "press": "pressure_increasing_test", "probe2": "verif_probe_test"}
+FN2MOD = {"valid": "axds", "press": "argo", "probe2": "argo", "nomod": "not_a_module"}
+MODTEST2FN = {(FN2MOD.get(k, "qartod"), v): k for k, v in FN2TEST.items()}
+
+
+def fn_of(module, test):
+    return MODTEST2FN.get((module, test), test)
 FRONTENDS = ["pandas", "pandas_idx", "numpy_dict", "numpy_arr", "xarray", "xarray_var", "netcdf_ds", "netcdf_path",
              "qcconfig"]
 
@@ -41,18 +47,30 @@ def verif_boom_test(inp, tag=0):
     raise RuntimeError("boom")
 
 
+def verif_probe_test2(inp, tinp=None, zinp=None, lat=None, lon=None, tag=0):
+    """the same test NAME registered in a second module (argo)"""
+    PROBE_LOG.append({"inp": inp, "tinp": tinp, "zinp": zinp, "lat": lat, "lon": lon})
+    return np.ma.ones(len(inp), dtype="uint8")
+
+
+verif_probe_test2.__name__ = "verif_probe_test"
+
+
 def install():
     import logging
     logging.disable(logging.CRITICAL)      # ioos_qc logs every skipped / failed call; the events carry that information
+    import ioos_qc.argo as argo
     qartod.verif_probe_test = verif_probe_test
     qartod.verif_boom_test = verif_boom_test
+    argo.verif_probe_test = verif_probe_test2
     verif_probe_test.__module__ = "ioos_qc.qartod"
     verif_boom_test.__module__ = "ioos_qc.qartod"
+    verif_probe_test2.__module__ = "ioos_qc.argo"
     if not getattr(qc_config.Call, "_verif_wrapped", False):
         orig = qc_config.Call.run
 
         def run(self, **kw):
-            RUN_LOG.append((self.stream_id, self.method))
+            RUN_LOG.append((self.stream_id, self.module, self.method))
             return orig(self, **kw)
         qc_config.Call.run = run
         qc_config.Call._verif_wrapped = True
@@ -87,8 +105,11 @@ def entry_kwargs(e):
         return kw
     if fn == "flat":
         return {"suspect_threshold": p["st"], "fail_threshold": p["ft"], "tolerance": rat(p["tol"])}
-    if fn in ("probe", "boom"):
+    if fn in ("probe", "probe2", "boom"):
         return {"tag": 1}
+    if fn == "valid":
+        return {"valid_span": [None if p["lo"] == NA else float(p["lo"]), None if p["hi"] == NA else float(p["hi"])],
+                "start_inclusive": p["sincl"], "end_inclusive": p["eincl"]}
     return {}
 
 
@@ -114,7 +135,7 @@ def config_dict(config, form="iso", rename=None):
             d["window"] = w
         for e in c["entries"]:
             sid = (rename or {}).get(e["stream"], e["stream"])
-            mod = "not_a_module" if e["fn"] == "nomod" else "qartod"
+            mod = FN2MOD.get(e["fn"], "qartod")
             d["streams"].setdefault(sid, {}).setdefault(mod, {})[FN2TEST[e["fn"]]] = entry_kwargs(e)
         ctxs.append(d)
     return {"contexts": ctxs}
@@ -128,8 +149,12 @@ def fl(seq):
     return np.array([math.nan if v == NA else float(v) for v in seq], dtype="float64")
 
 
+def has_time(table):
+    return table.get("hastime", True)
+
+
 def frame(table, idx=False):
-    d = {"time": times(table)}
+    d = {"time": times(table)} if has_time(table) else {}
     for k, v in table["data"].items():
         d[k] = fl(v)
     for k in ("z", "lat", "lon"):
@@ -143,6 +168,8 @@ def frame(table, idx=False):
 
 def dataset(table, time_coord=True):
     n = len(table["t"])
+    if not has_time(table):
+        time_coord = False
     dim = "time" if time_coord else "obs"
     dv = {k: ((dim,), fl(v)) for k, v in table["data"].items()}
     for k in ("z", "lat", "lon"):
@@ -150,7 +177,8 @@ def dataset(table, time_coord=True):
             dv[k] = ((dim,), fl(table[k]))
     if time_coord:
         return xr.Dataset(dv, coords={"time": times(table)})
-    dv["time"] = ((dim,), times(table))
+    if has_time(table):
+        dv["time"] = ((dim,), times(table))
     return xr.Dataset(dv, coords={"obs": np.arange(n)})
 
 
@@ -166,7 +194,7 @@ def make_stream(frontend, table, config, workdir):
         return PandasStream(frame(table))
     if frontend == "pandas_idx":
         return PandasStream(frame(table, idx=True))
-    kw = {"time": times(table)}
+    kw = {"time": times(table)} if has_time(table) else {}
     for k in ("z", "lat", "lon"):
         if table[k]:
             kw[k] = fl(table[k])
@@ -185,7 +213,7 @@ def make_stream(frontend, table, config, workdir):
         path = os.path.join(workdir, "t.nc")
         ds = dataset(table, True)
         ds.to_netcdf(path, engine="scipy", format="NETCDF3_64BIT",
-                     encoding={"time": {"units": "seconds since 1970-01-01", "dtype": "float64"}})
+                     encoding={"time": {"units": "seconds since 1970-01-01", "dtype": "float64"}} if has_time(table) else {})
         return NetcdfStream(path)
     raise KeyError(frontend)
 
@@ -244,13 +272,15 @@ def run_frontend(frontend, table, config, workdir, form="iso", max_orders=3, rng
             with warnings.catch_warnings():
                 warnings.simplefilter("ignore")
                 qc = qc_config.QcConfig(config_dict(config, form), default_stream_key=sid)
-                kw = {"inp": fl(table["data"][sid]), "tinp": times(table)}
+                kw = {"inp": fl(table["data"][sid])}
+                if has_time(table):
+                    kw["tinp"] = times(table)
                 if table["z"]:
                     kw["zinp"] = fl(table["z"])
                 if table["lat"]:
                     kw["lat"], kw["lon"] = fl(table["lat"]), fl(table["lon"])
                 res = qc.run(**kw)
-            accD = [{"stream": sid, "fn": TEST2FN.get(t, t), "flags": absflags(v)}
+            accD = [{"stream": sid, "fn": fn_of(mod, t), "flags": absflags(v)}
                     for mod, tests in res.items() for t, v in tests.items()]
             ev.append({"ev": "collect", "order": [], "direct": True, "first": True, "exc": "", "accL": [], "accD": accD})
         except Exception as e:  # noqa: BLE001
@@ -270,19 +300,19 @@ def run_frontend(frontend, table, config, workdir, form="iso", max_orders=3, rng
     runlog = list(RUN_LOG)
     pi = 0
     for k, r in enumerate(results):
-        sid, meth = runlog[k] if k < len(runlog) else (r.stream_id, "?")
-        fn = TEST2FN.get(meth, meth)
+        sid, mod, meth = runlog[k] if k < len(runlog) else (r.stream_id, "?", "?")
+        fn = fn_of(mod, meth)
         ok = len(r.results) > 0
         y = {"ev": "yield", "stream": r.stream_id, "fn": fn,
              "subset": [i + 1 for i, b in enumerate(np.asarray(r.subset_indexes).ravel().tolist()) if b],
              "ok": ok, "flags": absflags(r.results[0].results) if ok else [],
              "data": absarr(r.data), "t": absarr(r.tinp), "z": absarr(r.zinp), "lat": absarr(r.lat), "lon": absarr(r.lon)}
-        if fn == "probe" and ok and pi < len(probes):
+        if fn in ("probe", "probe2") and ok and pi < len(probes):
             p = probes[pi]
             pi += 1
             y["probe"] = {"x": absarr(p["inp"]), "t": absarr(p["tinp"]), "z": absarr(p["zinp"]),
                           "lat": absarr(p["lat"]), "lon": absarr(p["lon"])}
-        elif fn == "probe" and ok:
+        elif fn in ("probe", "probe2") and ok:
             y["probe"] = {"x": [], "t": [], "z": [], "lat": [], "lon": []}
         ev.append(y)
     ev.append({"ev": "endrun", "exc": exc})
@@ -303,20 +333,38 @@ def run_frontend(frontend, table, config, workdir, form="iso", max_orders=3, rng
     if n >= 2:
         orders.append(orders[-1][: n - 1])
     first = True
-    for od in orders:
+    from ioos_qc.results import ContextResult
+
+    def feed(od, merge):
+        """the ContextResults in arrival order; with merge, neighbours that belong to the same stream and rows are
+        delivered as ONE ContextResult carrying several CallResults (collect_results is a public API)"""
+        out = []
+        for i in od:
+            r = results[i - 1]
+            if (merge and out and out[-1].stream_id == r.stream_id and out[-1].results and r.results
+                    and np.array_equal(out[-1].subset_indexes, r.subset_indexes)):
+                p = out[-1]
+                out[-1] = ContextResult(stream_id=p.stream_id, results=list(p.results) + list(r.results),
+                                        subset_indexes=p.subset_indexes, data=p.data, tinp=p.tinp, zinp=p.zinp,
+                                        lat=p.lat, lon=p.lon)
+            else:
+                out.append(r)
+        return out
+    for k_od, od in enumerate(orders):
         c = {"ev": "collect", "order": od, "direct": False, "first": first, "exc": "", "accL": [], "accD": []}
         first = False
+        merge = k_od % 2 == 1
         try:
-            lst = collect_results([results[i - 1] for i in od], how="list")
+            lst = collect_results(feed(od, merge), how="list")
             for cr in lst:
-                c["accL"].append({"stream": cr.stream_id, "fn": TEST2FN.get(cr.test, cr.test), "flags": absflags(cr.results),
+                c["accL"].append({"stream": cr.stream_id, "fn": fn_of(cr.package, cr.test), "flags": absflags(cr.results),
                                   "data": absarr(cr.data), "t": absarr(cr.tinp), "z": absarr(cr.zinp),
                                   "lat": absarr(cr.lat), "lon": absarr(cr.lon)})
-            dct = collect_results([results[i - 1] for i in od], how="dict")
+            dct = collect_results(feed(od, merge), how="dict")
             for sid, mods in dct.items():
                 for mod, tests in mods.items():
                     for t, v in tests.items():
-                        c["accD"].append({"stream": sid, "fn": TEST2FN.get(t, t), "flags": absflags(v)})
+                        c["accD"].append({"stream": sid, "fn": fn_of(mod, t), "flags": absflags(v)})
         except Exception as e:  # noqa: BLE001
             c["exc"] = type(e).__name__
             c["msg"] = str(e)[:120]
